@@ -214,8 +214,15 @@ class Call:
                 C = self
 
                 def F(x=None, z=None):
-                    if x is not None:
-                        C.F_calls += 1
+                    if x is None:
+                        # the start point is an object owned by the caller: hand out the same stored matrix every
+                        # time and check afterwards that the solver did not write into it
+                        if getattr(C, "start_obj", None) is None:
+                            out0 = F0(None, None)
+                            C.start_m, C.start_obj = out0[0], out0[1]
+                            C.start_snap = [repr(v) for v in out0[1]]
+                        return C.start_m, C.start_obj
+                    C.F_calls += 1
                     if z is not None:
                         C.H_calls += 1
                     return F0(x, z)
@@ -395,6 +402,8 @@ def check_call(cs, glob_model, labels, where):
     msgs = []
     if image(call.args) != before_args:
         msgs.append("an input argument (matrix, dims, start point) was modified by the call")
+    if getattr(call, "start_obj", None) is not None and [repr(v) for v in call.start_obj] != call.start_snap:
+        msgs.append("the start point returned by F() was overwritten by the solver: %r -> %r" % (call.start_snap, list(call.start_obj)))
     if image(dict(solvers.options)) != before_glob:
         msgs.append("the global solvers.options dictionary was modified: %r" % (dict(solvers.options),))
     if image(per) != before_per:
@@ -420,6 +429,30 @@ def check_call(cs, glob_model, labels, where):
         # cpl evaluates F(x, z) (the Hessian) once per iteration, twice when it restores and retries
         if cs["entry"] in ("cpl", "cp") and isinstance(mx, int) and call.H_calls > 2 * mx + 2:
             msgs.append("F(x, z) was evaluated %d times (iterations) with maxiters = %d" % (call.H_calls, mx))
+        # the given tolerances are the ones applied: every verdict must meet the effective feastol / abstol / reltol
+        # in the solver's own reported accuracy fields (their correctness is the business of C01-C04)
+        def fl(name):
+            v = out[1].get(name)
+            if isinstance(v, list) and len(v) == 2 and v[0] == "F":
+                return float.fromhex(v[1])
+            return None
+        ft, at, rt = eff.get("feastol", 1e-7), eff.get("abstol", 1e-7), eff.get("reltol", 1e-6)
+        stt = out[1].get("status")
+        if all(isinstance(t, float) for t in (ft, at, rt)) and cs["entry"] not in ("op",):
+            if stt == "primal infeasible":
+                v = fl("residual as primal infeasibility certificate")
+                if v is not None and v > ft * (1 + 1e-9):
+                    msgs.append("status 'primal infeasible' with certificate residual %.3e > the given feastol %.1e" % (v, ft))
+            elif stt == "dual infeasible":
+                v = fl("residual as dual infeasibility certificate")
+                if v is not None and v > ft * (1 + 1e-9):
+                    msgs.append("status 'dual infeasible' with certificate residual %.3e > the given feastol %.1e" % (v, ft))
+            elif stt == "optimal" and cs["entry"] in ("conelp", "lp", "socp", "sdp", "coneqp", "qp", "cpl", "cp", "gp"):
+                pi, di, gp_, rg = fl("primal infeasibility"), fl("dual infeasibility"), fl("gap"), fl("relative gap")
+                if pi is not None and di is not None and max(pi, di) > ft * (1 + 1e-9):
+                    msgs.append("status 'optimal' with infeasibility %.3e > the given feastol %.1e" % (max(pi, di), ft))
+                if gp_ is not None and not (gp_ <= at * (1 + 1e-9) or (rg is not None and rg <= rt * (1 + 1e-9))):
+                    msgs.append("status 'optimal' with gap %.3e > abstol %.1e and relative gap %r > reltol %.1e" % (gp_, at, rg, rt))
         labels.add("status:" + str(out[1].get("status")))
     elif out[0] == "exc":
         labels.add("exc:" + out[1])
